@@ -513,7 +513,15 @@ fn lint_repo() -> Vec<String> {
             }
             let text = std::fs::read_to_string(&f).unwrap_or_default();
             let mut in_tests = false;
+            let mut prev = String::new();
             for (ln, line) in text.lines().enumerate() {
+                let seam_alias = prev.contains("cfg(not(feature = \"verif_sim\"))") || line.contains("crate::verif_sync");
+                prev = line.trim().to_string();
+                if seam_alias {
+                    // `#[cfg(not(feature = "verif_sim"))] use std::sync::X;` + `use crate::verif_sync::X;`:
+                    // the primitive is routed through the seam
+                    continue;
+                }
                 if line.contains("#[cfg(test)]") {
                     in_tests = true;
                 }
